@@ -7,6 +7,7 @@ package main
 
 import (
 	"bytes"
+	"crypto/sha1"
 	"encoding/json"
 	"fmt"
 	"sort"
@@ -37,17 +38,49 @@ func data(arg int) any {
 		"name": strings.Repeat(string(rune('a'+a)), 5+3*a),
 		"list": []any{a, float64(a) + 0.5, true, nil, strings.Repeat("x", a)},
 		"sub":  map[string]any{"k" + fmt.Sprint(a): []any{map[string]any{"x": a, "y": a * 2}, map[string]any{"x": a + 2, "y": "s"}}},
+		// operands of the shared filters: which rows match differs from data set to data set
+		"rows": []any{
+			map[string]any{"n": 1, "vals": []any{a, a + 1, 7 - a}, "lim": []any{a, 9 - a}, "tags": []any{"t" + fmt.Sprint(a), "x"}, "kids": []any{map[string]any{"x": a}, map[string]any{"x": 3}}},
+			map[string]any{"n": 2, "vals": []any{3, 4 + a%2, 5}, "lim": []any{a % 3}, "tags": []any{"y"}, "kids": []any{map[string]any{"x": 2 + a%2}}},
+			map[string]any{"n": 3, "vals": []any{}, "lim": []any{}, "tags": []any{}, "kids": []any{}},
+			map[string]any{"n": 4, "vals": []any{a * 2, 1, 2, 3, 6}, "lim": []any{4, a}, "tags": []any{"x", "y", "t3"}, "kids": []any{map[string]any{"x": a + 1}, map[string]any{"x": a - 1}}},
+		},
 	}
 }
 
+// Size thresholds matter in this code base (1024 WriteLimit, 4096 read buffer and pooled-buffer sizes,
+// 64 kB): the argument also selects a size class, and within a class the six data sets straddle the threshold.
+var thresholds = []int{0, 1024, 4096, 65536}
+
+func pad(arg int) string {
+	cls := (arg / nArgs) % len(thresholds)
+	if cls == 0 {
+		return ""
+	}
+	n := thresholds[cls] - 90 + 36*(arg%nArgs) // -90 .. +90 around the threshold
+	return strings.Repeat(string(rune('A'+arg%nArgs)), n)
+}
+
+// short keeps traces small: long texts are logged as length + digest + head (TLC only compares for equality).
+func short(s string) string {
+	if len(s) <= 160 {
+		return s
+	}
+	return fmt.Sprintf("#%d:%x:%s", len(s), sha1.Sum([]byte(s)), s[:48])
+}
+
 func doc(arg int) []byte {
-	b, _ := json.Marshal(data(arg))
+	d := data(arg).(map[string]any)
+	if p := pad(arg); p != "" {
+		d["pad"] = p
+	}
+	b, _ := json.Marshal(d)
 	return b
 }
 
 func senDoc(arg int) []byte {
 	a := arg % nArgs
-	return []byte(fmt.Sprintf("{id:%d name:%s list:[%d 'q%d' true null] sub:{k:[{x:%d}]}}", a, strings.Repeat(string(rune('a'+a)), 4+a), a, a, a))
+	return []byte(fmt.Sprintf("{id:%d name:%s list:[%d 'q%d' true null] sub:{k:[{x:%d}]} pad:%q}", a, strings.Repeat(string(rune('a'+a)), 4+a), a, a, a, pad(arg)))
 }
 
 // canon renders a parsed value independently of ojg (encoding/json sorts map keys).
@@ -79,6 +112,21 @@ var (
 	xScript = jp.MustNewScript("(@.x > 1 && @.y != 's')")
 	xFilter = jp.MustParseString("$.sub.*[?(@.y == 's')]")
 	recomp  *alt.Recomposer
+	// only the top-level N-types are registered; their nested struct types hang behind []*T, map[string]*T, **T
+	recompNested *alt.Recomposer
+	// shared expressions whose filters have multi-valued operands (wildcard, slice, union, nested filter,
+	// descent) on the left, on the right and on both sides
+	xMulti = []jp.Expr{
+		jp.MustParseString("$.rows[?(@.vals[*] == 3)].n"),
+		jp.MustParseString("$.rows[?(@.vals[1:3] > 4)].n"),
+		jp.MustParseString("$.rows[?(@.vals[0,2] < @.lim[*])].n"),
+		jp.MustParseString("$.rows[?(@.kids[?(@.x > 1)].x == 3)].n"),
+		jp.MustParseString("$.rows[?(@.tags[*] in ['x','t2','t4'])].n"),
+		jp.MustParseString("$.rows[?(3 == @.vals[*])].n"),
+		jp.MustParseString("$..[?(@.vals[*] > 6)].n"),
+		jp.MustParseString("$.rows[?(@.vals[*] > 2 && @.lim[*] < 5)].n"),
+	}
+	xMultiScript = jp.MustNewScript("(@.vals[*] > 2 && @.lim[1:] < 5)")
 )
 
 type recHandler struct{ sb strings.Builder }
@@ -122,8 +170,19 @@ func init() {
 	if recomp, err = alt.NewRecomposer("type", comps); err != nil {
 		panic(err)
 	}
+	ncomps := map[any]alt.RecomposeFunc{}
+	for _, m := range nestedMakers {
+		ncomps[m(0)] = nil
+	}
+	if recompNested, err = alt.NewRecomposer("type", ncomps); err != nil {
+		panic(err)
+	}
+	withKey := &ojg.Options{CreateKey: "type"}
+	multi := func(name string, f func(x jp.Expr, d any) string) Op {
+		return Op{name, "pure", func(a int) (string, []byte) { return f(xMulti[a%len(xMulti)], data(a/2)), nil }}
+	}
 	single := func(arg int) any {
-		return []any{arg % nArgs, strings.Repeat("s", 3+arg%nArgs), map[string]any{"only": data(arg).(map[string]any)["list"]}}
+		return []any{arg % nArgs, strings.Repeat("s", 3+arg%nArgs), map[string]any{"only": data(arg).(map[string]any)["list"]}, pad(arg)}
 	}
 	ops = []Op{
 		// ---- pooled writers: result copied (string / caller's io.Writer)
@@ -248,6 +307,72 @@ func init() {
 		{"jp.Script.Eval", "pure", func(a int) (string, []byte) {
 			list := []any{map[string]any{"x": a, "y": a}, map[string]any{"x": a + 2, "y": "s"}, map[string]any{"x": 5, "y": 1}}
 			return canonStd(xScript.Eval([]any{}, list)), nil
+		}},
+		// ---- shared expressions with multi-valued filter operands, every way of using them
+		multi("jp.Get(multi)", func(x jp.Expr, d any) string { return canonStd(x.Get(d)) }),
+		multi("jp.First(multi)", func(x jp.Expr, d any) string { return canonStd(x.First(d)) }),
+		multi("jp.Has(multi)", func(x jp.Expr, d any) string { return fmt.Sprint(x.Has(d)) }),
+		multi("jp.Locate(multi)", func(x jp.Expr, d any) string {
+			var sb strings.Builder
+			for _, loc := range x.Locate(d, 0) {
+				sb.WriteString(loc.String() + ";")
+			}
+			return sb.String()
+		}),
+		multi("jp.Walk(multi)", func(x jp.Expr, d any) string {
+			var sb strings.Builder
+			x.Walk(d, func(path jp.Expr, nodes []any) {
+				sb.WriteString(path.String() + "=" + canonStd(nodes[len(nodes)-1]) + ";")
+			})
+			return sb.String()
+		}),
+		multi("jp.Set(multi)", func(x jp.Expr, d any) string {
+			err := x.Set(d, "set")
+			return canonStd(d) + errStr(err)
+		}),
+		multi("jp.Del(multi)", func(x jp.Expr, d any) string {
+			err := x.Del(d)
+			return canonStd(d) + errStr(err)
+		}),
+		multi("jp.Modify(multi)", func(x jp.Expr, d any) string {
+			_, err := x.Modify(d, func(e any) (any, bool) { return fmt.Sprint("m", e), true })
+			return canonStd(d) + errStr(err)
+		}),
+		{"jp.Script.Eval(multi)", "pure", func(a int) (string, []byte) {
+			return canonStd(xMultiScript.Eval([]any{}, data(a).(map[string]any)["rows"])), nil
+		}},
+		// ---- recomposer: nested struct types behind containers of pointers, only the top level registered
+		{"Recomposer.Recompose(nested)", "recompose", func(a int) (string, []byte) {
+			src := nestedMakers[a%len(nestedMakers)](a)
+			out, err := recompNested.Recompose(alt.Decompose(src, withKey))
+			return fmt.Sprintf("%T ", out) + canonStd(alt.Decompose(out, withKey)) + errStr(err), nil
+		}},
+		{"Recomposer.Recompose(nested,target)", "recompose", func(a int) (string, []byte) {
+			src := nestedMakers[(a+3)%len(nestedMakers)](a)
+			dst := nestedMakers[(a+3)%len(nestedMakers)](0)
+			out, err := recompNested.Recompose(alt.Decompose(src), dst)
+			return fmt.Sprintf("%T ", out) + canonStd(alt.Decompose(out, withKey)) + errStr(err), nil
+		}},
+		// ---- more buffer-returning calls (private writers: immune, but held and re-inspected like the others)
+		{"pretty.Writer.Marshal", "pure", func(a int) (string, []byte) {
+			w := pretty.Writer{Options: ojg.DefaultOptions, Width: 80, MaxDepth: 3}
+			w.Sort = true
+			b, err := w.Marshal(single(a))
+			return string(b) + errStr(err), b
+		}},
+		{"pretty.Writer.Encode", "pure", func(a int) (string, []byte) {
+			w := pretty.Writer{Options: ojg.DefaultOptions, Width: 60, MaxDepth: 2, SEN: true}
+			w.Sort = true
+			b := w.Encode(single(a))
+			return string(b), b
+		}},
+		{"oj.Marshal(indent arg)", "pure", func(a int) (string, []byte) {
+			b, err := oj.Marshal(single(a), 2)
+			return string(b) + errStr(err), b
+		}},
+		{"sen.Bytes(opts)", "pure", func(a int) (string, []byte) {
+			b := sen.Bytes(single(a), sortOpt)
+			return string(b), b
 		}},
 	}
 }
